@@ -111,7 +111,20 @@ func DecodeContainerChildren(hdr BoxHeader, startPos, endPos uint64, r io.Reader
 	startPos += uint64(hdr.Hdrlen - boxHeaderSize)
 	pos := startPos
 	// The children must not be read beyond the end of the container
-	lr := &io.LimitedReader{R: r, N: int64(endPos - startPos)}
+	limit := int64(endPos - startPos)
+	lr, nested := r.(*io.LimitedReader)
+	if nested {
+		// r already is the limited reader of an enclosing container. Tighten its limit while the
+		// children of this container are read instead of stacking one more reader per nesting level
+		outerN := lr.N
+		if limit > outerN {
+			limit = outerN
+		}
+		lr.N = limit
+		defer func() { lr.N = outerN - (limit - lr.N) }()
+	} else {
+		lr = &io.LimitedReader{R: r, N: limit}
+	}
 	for {
 		child, err := DecodeBox(pos, lr)
 		if err == io.EOF {
@@ -122,7 +135,7 @@ func DecodeContainerChildren(hdr BoxHeader, startPos, endPos uint64, r io.Reader
 		}
 		children = append(children, child)
 		pos += child.Size()
-		if nrRead := int64(endPos-startPos) - lr.N; int64(pos-startPos) != nrRead {
+		if nrRead := limit - lr.N; int64(pos-startPos) != nrRead {
 			return nil, fmt.Errorf("child %s size mismatch in %s: %d - %d", child.Type(), hdr.Name, pos-startPos, nrRead)
 		}
 		if pos == endPos {
